@@ -125,6 +125,19 @@ fn trait_ops(op: &str, a: &[&str]) -> Option<String> {
         "tr.ToPrimitive.to_usize" => wr_optint(num_traits::ToPrimitive::to_usize(&t1(0)?)),
         "tr.ToPrimitive.to_f64" => wr_optf64(num_traits::ToPrimitive::to_f64(&t1(0)?)),
         "tr.ToPrimitive.to_f32" => wr_optf32(num_traits::ToPrimitive::to_f32(&t1(0)?)),
+        // FromPrimitive through the trait (provided defaults: from_i128 via from_i64, from_f32 via from_f64, ...)
+        "tr.FromPrimitive.from_i8" => wr_opttf(<TwoFloat as num_traits::FromPrimitive>::from_i8(rd_int::<i8>(a.get(0)?)?)),
+        "tr.FromPrimitive.from_i16" => wr_opttf(<TwoFloat as num_traits::FromPrimitive>::from_i16(rd_int::<i16>(a.get(0)?)?)),
+        "tr.FromPrimitive.from_i32" => wr_opttf(<TwoFloat as num_traits::FromPrimitive>::from_i32(rd_int::<i32>(a.get(0)?)?)),
+        "tr.FromPrimitive.from_i64" => wr_opttf(<TwoFloat as num_traits::FromPrimitive>::from_i64(rd_int::<i64>(a.get(0)?)?)),
+        "tr.FromPrimitive.from_i128" => wr_opttf(<TwoFloat as num_traits::FromPrimitive>::from_i128(rd_int::<i128>(a.get(0)?)?)),
+        "tr.FromPrimitive.from_u8" => wr_opttf(<TwoFloat as num_traits::FromPrimitive>::from_u8(rd_int::<u8>(a.get(0)?)?)),
+        "tr.FromPrimitive.from_u16" => wr_opttf(<TwoFloat as num_traits::FromPrimitive>::from_u16(rd_int::<u16>(a.get(0)?)?)),
+        "tr.FromPrimitive.from_u32" => wr_opttf(<TwoFloat as num_traits::FromPrimitive>::from_u32(rd_int::<u32>(a.get(0)?)?)),
+        "tr.FromPrimitive.from_u64" => wr_opttf(<TwoFloat as num_traits::FromPrimitive>::from_u64(rd_int::<u64>(a.get(0)?)?)),
+        "tr.FromPrimitive.from_u128" => wr_opttf(<TwoFloat as num_traits::FromPrimitive>::from_u128(rd_int::<u128>(a.get(0)?)?)),
+        "tr.FromPrimitive.from_f64" => wr_opttf(<TwoFloat as num_traits::FromPrimitive>::from_f64(rd_f64(a.get(0)?))),
+        "tr.FromPrimitive.from_f32" => wr_opttf(<TwoFloat as num_traits::FromPrimitive>::from_f32(rd_f32(a.get(0)?))),
         // the same for the integer-typed NumCast route out of TwoFloat: <iN as NumCast>::from(x) = x.to_iN()
         "tr.NumCast.i64" => wr_optint(<i64 as num_traits::NumCast>::from(t1(0)?)),
         "tr.NumCast.u64" => wr_optint(<u64 as num_traits::NumCast>::from(t1(0)?)),
